@@ -5,7 +5,6 @@ import (
 	"errors"
 	"fmt"
 	"go/ast"
-	"go/format"
 	"go/parser"
 	"go/token"
 	"golang.org/x/tools/imports"
@@ -13,6 +12,7 @@ import (
 
 	"github.com/uber-go/gopatch/internal/astdiff"
 	"github.com/uber-go/gopatch/internal/engine"
+	"github.com/uber-go/gopatch/internal/goast"
 	"github.com/uber-go/gopatch/internal/parse"
 )
 
@@ -77,7 +77,7 @@ func (f *File) Apply(filename string, src []byte) ([]byte, error) {
 	}
 
 	var out bytes.Buffer
-	err = format.Node(&out, f.fset, fout)
+	err = goast.Format(&out, f.fset, fout)
 	if err != nil {
 		return nil, err
 	}
